@@ -290,7 +290,7 @@ def recSubclasses (recC : ClassDef → RecRes) : List ClassDef → ClsAcc → Ex
 /-- the tail of `__recognize_user_classes`, once the candidate set is known -/
 def finishClasses (env : Env) (n : Node) (top : Bool) (ts : List Ty) (causes : List (List Leaf)) : RecRes :=
   if ts.length == 0 then
-    .ok ([], leavesOf ⟨if top then [n.mark] else [], []⟩ causes)
+    .ok ([], leavesOf ⟨if top || causes.length == 0 then [n.mark] else [], []⟩ causes)
   else if ts.length > 1 then
     match env.byTag n.tag with
     | some d => if ts.contains (.cls d.name) then recOk (.cls d.name)
